@@ -318,6 +318,19 @@ def report_level(rec, rnd, n):
             A.write_summary_file_vue(stats, path, year=2025, currency_format='${amount}', sources=['Amex'], embedded_html=True)
             data, err = c12.extract_data(open(path, encoding='utf-8').read())
             os.unlink(path)
+            if k % 10 == 0:
+                # the report with its files beside it, written into a folder that holds an older release's script: the page must load the classification
+                # code of THIS release (the one the command line just used), so the script on disk is the installed one
+                d2 = os.path.join(tmp, 'ext%d' % k)
+                os.makedirs(d2)
+                with open(os.path.join(d2, 'spending_report.js'), 'w') as fh:
+                    fh.write('// spending_report.js of an older release\nfunction categorizeAmount(a, t) { return {income: 0, investment: 0, transferIn: 0, transferOut: 0, spending: a, credits: 0}; }\n')
+                A.write_summary_file_vue(stats, os.path.join(d2, 'r.html'), year=2025, currency_format='${amount}', sources=['Amex'], embedded_html=False)
+                rec.count('external_reports_over_an_older_script')
+                if open(os.path.join(d2, 'spending_report.js'), encoding='utf-8').read() != open(os.path.join(os.path.dirname(tally.__file__), 'spending_report.js'), encoding='utf-8').read():
+                    rec.violation('page-loads-an-older-releases-classification-code', 'after writing the report again (files beside the page) the folder still holds the OLD spending_report.js: '
+                                  'the browser classifies with other code than the command line', {'kind': 'report-level'})
+                shutil.rmtree(d2, ignore_errors=True)
             if err:
                 continue
             rec.count('reports_decoded')
